@@ -37,7 +37,18 @@ BitPositions == (1..4) \X (0..7)
 BitSet(w, p) == Bit(w[p[1]], p[2])
 OnesOf(w) == { p \in BitPositions : BitSet(w, p) }
 
+\* The crate's layout of the two defined flags (RFC 2661 s4.4.3 / s4.4.5 "A S" / "A D" in bits 30 and 31,
+\* which the crate's LSB-first numbering puts on 0x40 and 0x80 of the last octet), as the word that
+\* K::new(first, second) must hold.  Constructor parameter order: FramingCapabilities(async, sync),
+\* BearerCapabilities(digital, analog), BearerType(analog, digital), FramingType(analog, digital).
+ExpectedCtorWord(kind, a, b) ==
+  LET lo == IF kind = "BearerCapabilities" THEN (IF a THEN 128 ELSE 0) + (IF b THEN 64 ELSE 0)
+            ELSE (IF a THEN 64 ELSE 0) + (IF b THEN 128 ELSE 0)
+  IN <<0, 0, 0, lo>>
+
 BitmaskTags(ev) ==
+  T(\E i \in 1..4 : ev.ctor[i].bits # << >> /\ ev.ctor[i].bits[1] # ExpectedCtorWord(ev.kind, ev.ctor[i].a, ev.ctor[i].b), "bitmask-layout")
+  \o
   LET ctor == ev.ctor
       ff == ctor[1]  tf == ctor[2]  ft == ctor[3]  tt == ctor[4]
       haveBits == \A i \in 1..4 : ctor[i].bits # << >>
